@@ -80,6 +80,20 @@ func init() {
 					add(pIn{K: "range", Op: op, V: v})
 				}
 			}
+			// the common parser with the dense id allocator: the first text a parser ever sees gets id 0 -- accepted at
+			// indexing time, it must be matched at query time in every assignment shape (include and exclude)
+			for _, kind := range []string{"kgroups", "compact"} {
+				c := eCase{Kind: kind, Policy: "error", Parsers: map[int]string{0: "dense", 1: "dense"}}
+				c.Docs = []eDoc{
+					{ID: 1, Cons: []eConj{{{F: 0, Inc: true, V: tvStr("beijing")}}}},
+					{ID: 2, Cons: []eConj{{{F: 0, Inc: true, V: tvSlice("[]string", tvStr("beijing"), tvStr("shanghai"))}, {F: 1, Inc: true, V: tvInt("int", 7)}}}},
+					{ID: 5, Cons: []eConj{{{F: 0, Inc: false, V: tvStr("beijing")}, {F: 1, Inc: true, V: tvSlice("[]int", tvInt("int", 7), tvInt("int", 8))}}}},
+				}
+				for _, v := range []TV{tvStr("beijing"), tvSlice("[]string", tvStr("beijing")), tvList(tvStr("beijing")), tvStr("shanghai"), tvStr("nowhere"), tvSlice("[]string", tvStr("nowhere"), tvStr("beijing"))} {
+					c.Queries = append(c.Queries, eQuery{A: []eAssign{{F: 0, V: v}}}, eQuery{A: []eAssign{{F: 0, V: v}, {F: 1, V: tvInt("int", 7)}}}, eQuery{A: []eAssign{{F: 0, V: v}, {F: 1, V: tvSlice("[]int", tvInt("int", 7))}}})
+				}
+				add(c)
+			}
 			rangeSplitCases(add) // kept intervals split by later ones: every accepted range stays matched by what it denotes
 			// end to end: accepted => matchable.  One document per value; queries with candidate values.
 			cands := []int64{0, 1, 2, 3, 5, 7, 8, 9, 10, -3, 4, 127, 255, 1000, 2000, 64, 100, -15, -17, 11, 1500, 250, 15}
